@@ -206,7 +206,7 @@ func runC07(c *Ctx, r *Rec) {
 	}
 	r.count("rank leaves", nleaves)
 	r.floor("D1-leaf-order", 1)
-	r.floor("D1-unordered-cell", 2)
+	r.floor("D1-unordered-cell", 1)
 
 	checkRankComposites(c, r, cr)
 
@@ -247,7 +247,7 @@ func runC07(c *Ctx, r *Rec) {
 		bad := depthBalance(c, info, fd, cr.depthF)
 		r.check(bad == "", "D5-depth-balanced", c.fdName(fd), c.pos(fd.Pos()), "every normal exit and every loop back edge is reached with a net depth change of zero", bad)
 	}
-	r.floor("D5-depth-balanced", 4)
+	r.floor("D5-depth-balanced", 1)
 }
 
 // ---------------------------------------------------------------- operand mirror
